@@ -156,7 +156,7 @@ def _op_apply_post(method):
 
 
 for _m in ("transform", "inverse_transform"):
-    contract(f"{CP}::OptionalPassthrough.{_m}", "C13", cases=OP_CASES, inputs=_op_inputs,
+    contract(f"{CP}::OptionalPassthrough.{_m}", "C13,C12", cases=OP_CASES, inputs=_op_inputs,
              raises=[("NotFittedError", lambda A: A.self.attrs["_is_fitted"] is False)],
              ensures=[("identity-when-passing-through-else-the-fitted-inner-transformer", _op_apply_post(_m))],
              frame=lambda A: [A.self, A.Z])
